@@ -11,7 +11,11 @@
 // Oracles: see the per-check comments below and DESIGN.md section 6.
 #include "core.hpp"
 #include "session.hpp"
+#include <algorithm>
 #include "xzutil.hpp"
+#include "../model/refxz.hpp"
+#include "../model/refbcj.hpp"
+#include "../model/refcheck.hpp"
 
 enum { EK_STREAM_MT = 0, EK_STREAM_ST, EK_EASY, EK_ALONE, EK_RAW, EK_COUNT };
 
@@ -282,6 +286,55 @@ static bool xz_block_sizes(const Bytes &xz, std::vector<uint64_t> &sizes, std::s
 	return true;
 }
 
+// C02: the produced bytes judged by the independent reference decoder
+// (model/refxz, model/reflzma): valid instance of the format, every stored
+// field truthful, declared dictionary not smaller than the farthest match,
+// and the reference recovers the input.
+static void ref_validate(const Plan &plan, const EncSetup &es, const Bytes &out, const Bytes &input, uint64_t chain_changes, Verdict &v)
+{
+	const std::string P = plan.prop;
+	bool is_stream = es.kind == EK_STREAM_MT || es.kind == EK_STREAM_ST || es.kind == EK_EASY;
+	if (is_stream) {
+		ref::XzResult r = ref::parse_xz(out.data(), out.size(), true);
+		if (r.verdict == ref::XZ_UNSUPPORTED) { v.count("oracle.ref_unsupported"); return; }
+		if (r.verdict != ref::XZ_VALID) { v.fail("ref-invalid", P + "/ref-invalid", "the reference .xz parser rejects the encoder's output: " + r.why + fmt(" [%zu bytes]", out.size())); return; }
+		if (r.consumed != out.size()) { v.fail("ref-trailing", P + "/ref-trailing", "bytes after the last Stream"); return; }
+		if (r.out != input) { v.fail("ref-data", P + "/ref-data", fmt("the reference decoder recovers %zu bytes that differ from the %zu input bytes", r.out.size(), input.size())); return; }
+		if (r.streams.size() != 1) { v.fail("ref-streams", P + "/ref-streams", fmt("%zu Streams in the output of one encoder session", r.streams.size())); return; }
+		for (auto &b : r.streams[0].blocks) {
+			if ((uint64_t)b.max_dist > b.dict_declared) { v.fail("ref-dict", P + "/ref-dict", fmt("a match reaches back %u bytes but the Block declares a dictionary of %llu", b.max_dist, (unsigned long long)b.dict_declared)); return; }
+		}
+		v.count("oracle.ref_xz_validated");
+		v.counters["bits.xz_features"] |= r.features;
+		return;
+	}
+	if (es.kind == EK_ALONE) {
+		ref::AloneResult a = ref::decode_alone(out.data(), out.size());
+		if (!a.valid) { v.fail("ref-invalid", P + "/ref-invalid", "the reference .lzma decoder rejects the encoder's output: " + a.why); return; }
+		if (a.out != input || a.consumed != out.size()) { v.fail("ref-data", P + "/ref-data", fmt("the reference .lzma decoder recovers %zu bytes (input %zu), consumed %zu of %zu", a.out.size(), input.size(), a.consumed, out.size())); return; }
+		v.count("oracle.ref_lzma_validated");
+		return;
+	}
+	if (es.kind == EK_RAW && !es.chain.lzma1 && !chain_changes && es.chain.preset_dict.empty()) {
+		// raw chain ending in LZMA2
+		ref::Lzma2Result l = ref::decode_lzma2(out.data(), out.size(), es.chain.lz.dict_size);
+		if (!l.valid) { v.fail("ref-invalid", P + "/ref-invalid", "the reference LZMA2 decoder rejects the raw encoder's output: " + l.why); return; }
+		if (l.consumed != out.size()) { v.fail("ref-trailing", P + "/ref-trailing", "bytes after the LZMA2 end marker"); return; }
+		if ((uint64_t)l.max_dist > es.chain.lz.dict_size) { v.fail("ref-dict", P + "/ref-dict", fmt("a match reaches back %u bytes with dict_size %u", l.max_dist, es.chain.lz.dict_size)); return; }
+		Bytes plain = l.out;
+		int nf = 0; while (es.chain.f[nf].id != LZMA_VLI_UNKNOWN) ++nf;
+		bool ok = true;
+		for (int i = nf - 2; i >= 0 && ok; --i) {
+			if (es.chain.f[i].id == LZMA_FILTER_DELTA) ref::delta_apply(plain, es.chain.delta.dist, false);
+			else if (ref::bcj_supported(es.chain.f[i].id)) ref::bcj_apply(es.chain.f[i].id, plain, es.chain.f[i].options ? es.chain.bcj.start_offset : 0, false);
+			else ok = false;
+		}
+		if (!ok) { v.count("oracle.ref_unsupported"); return; }
+		if (plain != input) { v.fail("ref-data", P + "/ref-data", fmt("the reference decoders recover %zu bytes that differ from the input (%zu bytes) [chain %s]", plain.size(), input.size(), es.chain.desc.c_str())); return; }
+		v.count("oracle.ref_raw_validated");
+	}
+}
+
 static void enc_exec(const Plan &plan, Verdict &v)
 {
 	const std::string P = plan.prop;
@@ -344,6 +397,8 @@ static void enc_exec(const Plan &plan, Verdict &v)
 		}
 		if (d.total_in != res.out.size()) { v.fail("trailing", P + "/trailing", fmt("decoder consumed %llu of %zu produced bytes", (unsigned long long)d.total_in, res.out.size()) + ctx); return; }
 	}
+
+	if (plan.prop == "C02") { ref_validate(plan, es, res.out, input, res.chain_changes, v); if (!v.ok) return; }
 
 	// --- Block structure (C08, C12): one Stream; Blocks end exactly at the
 	// full flush / barrier offsets (and, threaded, every block_size bytes
@@ -570,7 +625,142 @@ static void c01_enc_gen(Rng &rng, Plan &plan, bool thorough)
 	gen_history(rng, plan, (size_t)plan.p("in_len"), false, false, false);
 }
 
+static void c02_enc_gen(Rng &rng, Plan &plan, bool thorough)
+{
+	switch (rng.below(4)) {
+	case 0: c08_gen(rng, plan, thorough); break;
+	case 1: c12_gen(rng, plan, thorough); break;
+	default: c01_enc_gen(rng, plan, thorough); break;
+	}
+	plan.params.erase(std::remove_if(plan.params.begin(), plan.params.end(), [](const std::pair<std::string, int64_t> &e) { return e.first == "end_after_calls" || e.first == "reinit_after_calls"; }), plan.params.end());
+	plan.setp("check_determinism", 0);
+}
+
+REGISTER_SCENARIO(c02_enc, "C02", "encoder_output_validity", 80, 80, c02_enc_gen, enc_exec, true);
 REGISTER_SCENARIO(c08_main, "C08", "mt_encoder", 100, 100, c08_gen, enc_exec, true);
 REGISTER_SCENARIO(c12_main, "C12", "flush_sessions", 100, 100, c12_gen, enc_exec, true);
 REGISTER_SCENARIO(c06_enc, "C06", "encoder_determinism", 40, 40, c06_enc_gen, enc_exec, true);
 REGISTER_SCENARIO(c01_enc, "C01", "encoder_roundtrip", 70, 70, c01_enc_gen, enc_exec, true);
+
+// ------------------------------------------------------------------------
+// Single-call encoders, bound functions (C02) and MicroLZMA (C01)
+// ------------------------------------------------------------------------
+static void sc_gen(Rng &rng, Plan &plan, bool thorough)
+{
+	gen_sched_params(rng, plan, thorough);
+	plan.setp("api", (int64_t)rng.below(5));   // 0 stream_buffer, 1 easy_buffer, 2 block_buffer, 3 raw_buffer, 4 microlzma
+	gen_chain_params(rng, plan, true, false);
+	static const int64_t sizes[] = { 0, 1, 2, 65535, 65536, 65537, 131072, (1 << 21) - 1, 1 << 21, (1 << 21) + 1, 100, 5000, 300000 };
+	int64_t n = sizes[rng.below(13)];
+	if (rng.chance(300)) n = (int64_t)rng.size_skewed(thorough ? 3000000 : 400000);
+	if (!thorough && n > 300000 && rng.chance(800)) n = 65536 + (int64_t)rng.below(3);
+	plan.setp("in_len", n);
+	// incompressible data is what stresses the bound
+	static const int cls[] = { IN_RANDOM, IN_RANDOM, IN_RANDOM, IN_TEXT, IN_ZEROS, IN_MIXED, IN_X86ISH };
+	plan.setp("in_class", cls[rng.below(7)]);
+	plan.setp("in_seed", (int64_t)(rng.next() >> 2));
+	static const int checks[] = { LZMA_CHECK_NONE, LZMA_CHECK_CRC32, LZMA_CHECK_CRC64, LZMA_CHECK_SHA256 };
+	plan.setp("check", checks[rng.below(4)]);
+	uint32_t preset = (uint32_t)rng.below(thorough ? 10 : 7);
+	if (rng.chance(200)) preset |= LZMA_PRESET_EXTREME;
+	plan.setp("preset", preset);
+	if (rng.chance(500)) plan.setp("mf_norm_after", rng.range(1, n + 2));
+	// MicroLZMA: output size limit
+	plan.setp("out_limit", (int64_t)(rng.chance(300) ? 6 + rng.below(64) : 6 + rng.size_skewed(200000)));
+}
+
+static void sc_exec(const Plan &plan, Verdict &v)
+{
+	const std::string P = plan.prop;
+	int api = (int)plan.p("api") % 5;
+	Bytes input = gen_input((int)plan.p("in_class", IN_RANDOM), (size_t)plan.p("in_len", 1000), (uint64_t)plan.p("in_seed", 1));
+	Chain ch; chain_from_plan(plan, ch);
+	ch.lz.preset_dict = nullptr; ch.lz.preset_dict_size = 0;
+	lzma_check check = (lzma_check)plan.p("check", LZMA_CHECK_CRC32);
+	uint32_t preset = (uint32_t)plan.p("preset", 1);
+	SimAlloc al;
+	v.count("runs.total");
+	v.count(fmt("api.%d", api));
+	std::string ctx = fmt(" [api %d, %zu bytes of class %s, chain %s, preset %u]", api, input.size(), input_class_name((int)plan.p("in_class")), ch.desc.c_str(), preset);
+	if (api == 4) {
+		// MicroLZMA: an output-size-limited encoder yields exactly the prefix of
+		// the input that it reports having consumed, within the limit
+		lzma_options_lzma lz = ch.lz;
+		lzma_stream s = LZMA_STREAM_INIT;
+		s.allocator = &al.a;
+		lzma_ret r = lzma_microlzma_encoder(&s, &lz);
+		if (r != LZMA_OK) { v.count("runs.options_rejected"); lzma_end(&s); return; }
+		size_t limit = (size_t)plan.p("out_limit", 100);
+		Bytes out(limit);
+		s.next_in = input.data(); s.avail_in = input.size(); s.next_out = out.data(); s.avail_out = out.size();
+		r = lzma_code(&s, LZMA_FINISH);
+		size_t used = (size_t)s.total_in, made = (size_t)s.total_out;
+		lzma_end(&s);
+		if (r != LZMA_STREAM_END) { v.fail("microlzma-status", P + "/microlzma-status", fmt("MicroLZMA encoder returned %s", ret_name(r)) + ctx); return; }
+		if (made > limit) { v.fail("microlzma-limit", P + "/microlzma-limit", "output exceeds the limit" + ctx); return; }
+		out.resize(made);
+		for (int exact = 0; exact < 2; ++exact) {
+			lzma_stream d = LZMA_STREAM_INIT;
+			d.allocator = &al.a;
+			r = lzma_microlzma_decoder(&d, made, used, exact != 0, lz.dict_size);
+			if (r != LZMA_OK) { v.fail("microlzma-dec-init", P + "/microlzma-dec-init", ret_name(r) + ctx); lzma_end(&d); return; }
+			Bytes dec(used + 16);
+			d.next_in = out.data(); d.avail_in = out.size(); d.next_out = dec.data(); d.avail_out = exact ? used : dec.size();
+			r = lzma_code(&d, LZMA_FINISH);
+			size_t got = (size_t)d.total_out;
+			lzma_end(&d);
+			// with uncomp_size_is_exact=false the decoder may stop with LZMA_OK once the
+			// given size is reached (documented); what it wrote must be the prefix
+			bool ok = (r == LZMA_STREAM_END || (!exact && r == LZMA_OK)) && got >= used && (used == 0 || memcmp(dec.data(), input.data(), used) == 0);
+			if (used == 0) ok = r == LZMA_STREAM_END || r == LZMA_OK;
+			if (!ok) { v.fail("microlzma-roundtrip", P + "/microlzma-roundtrip", fmt("MicroLZMA: %zu input bytes reported consumed, %zu output bytes; decoding (exact=%d) gives %s and %zu bytes", used, made, exact, ret_name(r), got) + ctx); return; }
+		}
+		if (al.cur) { v.fail("leak", P + "/leak", "leak" + ctx); al.purge(); return; }
+		v.feature(mix64(fnv_str(ch.desc), mix64(limit / 16, used / 64)));
+		return;
+	}
+	size_t bound;
+	Bytes out;
+	size_t op = 0;
+	lzma_ret r;
+	lzma_block blk; memset(&blk, 0, sizeof blk);
+	switch (api) {
+	case 0: bound = lzma_stream_buffer_bound(input.size()); out.resize(bound); r = lzma_stream_buffer_encode(ch.f, check, &al.a, input.data(), input.size(), out.data(), &op, out.size()); break;
+	case 1: bound = lzma_stream_buffer_bound(input.size()); out.resize(bound); r = lzma_easy_buffer_encode(preset, check, &al.a, input.data(), input.size(), out.data(), &op, out.size()); break;
+	case 2: bound = lzma_block_buffer_bound(input.size()); out.resize(bound); blk.check = check; blk.filters = ch.f; r = lzma_block_buffer_encode(&blk, &al.a, input.data(), input.size(), out.data(), &op, out.size()); break;
+	default: bound = lzma_stream_buffer_bound(input.size()); out.resize(bound); r = lzma_raw_buffer_encode(ch.f, &al.a, input.data(), input.size(), out.data(), &op, out.size()); break;
+	}
+	if (bound == 0) { v.fail("bound-zero", P + "/bound-zero", "bound function returned 0" + ctx); return; }
+	if (r == LZMA_OPTIONS_ERROR) { v.count("runs.options_rejected"); return; }
+	if (r == LZMA_BUF_ERROR && api != 3) { v.fail("bound-too-small", P + "/bound-too-small", fmt("single-call encoder returned LZMA_BUF_ERROR with an output buffer of the %zu bytes the bound function asked for", bound) + ctx); return; }
+	if (r == LZMA_BUF_ERROR) { v.count("runs.raw_buf_error"); return; }   // no bound function exists for raw
+	if (r != LZMA_OK) { v.fail("enc-status", P + "/enc-status", fmt("single-call encoder returned %s", ret_name(r)) + ctx); return; }
+	out.resize(op);
+	if (al.cur) { v.fail("leak", P + "/leak", "leak" + ctx); al.purge(); return; }
+	// liblzma's own decoder
+	Bytes dec(input.size() + 1);
+	size_t ip = 0, dp = 0; uint64_t ml = UINT64_MAX;
+	if (api <= 1) r = lzma_stream_buffer_decode(&ml, 0, nullptr, out.data(), &ip, out.size(), dec.data(), &dp, dec.size());
+	else if (api == 2) {
+		lzma_filter df[LZMA_FILTERS_MAX + 1];
+		lzma_block db; memset(&db, 0, sizeof db);
+		db.check = check; db.filters = df; db.header_size = lzma_block_header_size_decode(out[0]);
+		r = lzma_block_header_decode(&db, nullptr, out.data());
+		if (r == LZMA_OK) { ip = db.header_size; r = lzma_block_buffer_decode(&db, nullptr, out.data(), &ip, out.size(), dec.data(), &dp, dec.size()); lzma_filters_free(df, nullptr); }
+	} else r = lzma_raw_buffer_decode(ch.f, nullptr, out.data(), &ip, out.size(), dec.data(), &dp, dec.size());
+	if (r != LZMA_OK || dp != input.size() || ip != out.size() || (dp && memcmp(dec.data(), input.data(), dp) != 0)) { v.fail("roundtrip", P + "/roundtrip", fmt("decoding the single-call output gives %s, %zu bytes, consumed %zu of %zu", ret_name(r), dp, ip, out.size()) + ctx); return; }
+	// the reference decoder
+	if (api <= 1) {
+		ref::XzResult x = ref::parse_xz(out.data(), out.size(), true);
+		if (x.verdict == ref::XZ_VALID) {
+			if (x.out != input || x.consumed != out.size()) { v.fail("ref-data", P + "/ref-data", "reference decoder output differs" + ctx); return; }
+			for (auto &st : x.streams) for (auto &b : st.blocks) if ((uint64_t)b.max_dist > b.dict_declared) { v.fail("ref-dict", P + "/ref-dict", "match beyond the declared dictionary" + ctx); return; }
+			v.count("oracle.ref_xz_validated");
+		} else if (x.verdict != ref::XZ_UNSUPPORTED) { v.fail("ref-invalid", P + "/ref-invalid", "reference parser rejects: " + x.why + ctx); return; }
+	}
+	v.feature(mix64(mix64((uint64_t)api, fnv_str(ch.desc)), mix64(input.size() / 1024, (uint64_t)plan.p("in_class"))));
+	v.feature2(mix64((uint64_t)api, input.size() >= 65536));
+}
+
+REGISTER_SCENARIO(c02_sc, "C02", "single_call_bounds", 20, 20, sc_gen, sc_exec, false);
+REGISTER_SCENARIO(c01_sc, "C01", "single_call_and_microlzma", 30, 30, sc_gen, sc_exec, false);
